@@ -110,7 +110,10 @@ pub fn get_rules() -> Vec<Arc<Rule>> {
 pub fn clear_rules() {
     CURRENT_RULES.lock().unwrap().clear();
     BREAKER_RULES.write().unwrap().clear();
-    BREAKER_MAP.write().unwrap().clear();
+    // a circuit breaker notifies the state change listeners when it is dropped, and a
+    // listener may call back into this manager: drop the breakers after the lock is released
+    let old_breakers = std::mem::take(&mut *BREAKER_MAP.write().unwrap());
+    drop(old_breakers);
 }
 
 /// `append_rule` adds one rule to the rules already loaded for its resource.
@@ -207,6 +210,10 @@ pub fn load_rules(rules: Vec<Arc<Rule>>) -> bool {
     let start = utils::curr_time_nanos();
     let mut global_breaker_map = BREAKER_MAP.write().unwrap();
     let mut valid_breaker_map = HashMap::with_capacity(valid_rules_map.len());
+    // a breaker notifies the listeners when it is dropped, and a listener may call back into
+    // this manager: keep every old breaker alive until the locks have been released
+    let old_breakers: Vec<Arc<dyn CircuitBreakerTrait>> =
+        global_breaker_map.values().flatten().cloned().collect();
 
     // build global_breaker_map according to valid rules
     for (res, rules) in valid_rules_map.iter() {
@@ -235,6 +242,7 @@ pub fn load_rules(rules: Vec<Arc<Rule>>) -> bool {
     *global_rule_map = rule_map;
     drop(global_rule_map);
     drop(global_breaker_map);
+    drop(old_breakers);
     logging::debug!(
         "[CircuitBreakerTrait load_rules] Time statistic(ns) for updating flow rule, time cost {}",
         utils::curr_time_nanos() - start
@@ -252,8 +260,15 @@ pub fn load_rules_of_resource(res: &String, rules: Vec<Arc<Rule>>) -> Result<boo
         return Err(Error::msg("empty resource"));
     }
     let rules: HashSet<_> = rules.into_iter().collect();
+    // a breaker notifies the listeners when it is dropped, and a listener may call back into
+    // this manager: the resource's old breakers are kept alive in this vector, which is
+    // declared before the lock guards and therefore dropped after them
+    let mut _old_breakers: Vec<Arc<dyn CircuitBreakerTrait>> = Vec::new();
     let mut global_rule_map = CURRENT_RULES.lock().unwrap();
     let mut global_breaker_map = BREAKER_MAP.write().unwrap();
+    if let Some(old) = global_breaker_map.get(res) {
+        _old_breakers = old.clone();
+    }
     // clear resource rules
     if rules.is_empty() {
         global_rule_map.remove(res);
@@ -377,7 +392,9 @@ pub fn remove_circuit_breaker_generator(s: &BreakerStrategy) -> Result<()> {
 pub fn clear_rules_of_resource(res: &String) {
     BREAKER_RULES.write().unwrap().remove(res);
     CURRENT_RULES.lock().unwrap().remove(res);
-    BREAKER_MAP.write().unwrap().remove(res);
+    // dropped (and the listeners notified) after the lock is released
+    let old_breakers = BREAKER_MAP.write().unwrap().remove(res);
+    drop(old_breakers);
 }
 
 pub fn calculate_reuse_index_for(
